@@ -213,3 +213,78 @@ def formats_in_repo(repo):
                 if isinstance(a, ast.Constant) and isinstance(a.value, str):
                     out.add(a.value)
     return sorted(out)
+
+
+# ---------------------------------------------------------------------------------------------- model -> inputs
+
+def model_inputs(eng, o, model):
+    """Concretise the unit's symbolic inputs from a z3 model into JSON-able Python values."""
+    out = {}
+    strs = {}
+    for name, v in (o.inputs or {}).items():
+        out[name] = term_to_py(model, v.ty, model.eval(v.t, model_completion=True), strs)
+    return out
+
+
+def term_to_py(model, ty, t, strs):
+    import z3
+    k = ty[0]
+    if k == 'int':
+        return t.as_long() if z3.is_int_value(t) else 0
+    if k == 'bool':
+        return bool(z3.is_true(t))
+    if k == 'real':
+        try:
+            return float(t.numerator_as_long()) / float(t.denominator_as_long())
+        except Exception:
+            return 0.0
+    if k == 'bytes':
+        return {'__bytes__': seq_to_bytes(model, t).hex()}
+    if k == 'str':
+        key = str(t)
+        if key not in strs:
+            strs[key] = 's%d' % len(strs)
+        return strs[key]
+    if k == 'none':
+        return None
+    if k == 'opt':
+        i = T.info(ty)
+        if z3.is_true(model.eval(i['is_none'](t), model_completion=True)):
+            return None
+        return term_to_py(model, ty[1], model.eval(i['val'](t), model_completion=True), strs)
+    if k == 'tuple':
+        i = T.info(ty)
+        return {'__tuple__': [term_to_py(model, et, model.eval(a(t), model_completion=True), strs)
+                              for a, et in zip(i['acc'], ty[1])]}
+    if k == 'struct':
+        i = T.info(ty)
+        return {'__struct__': ty[1], 'fields': {f: term_to_py(model, ft, model.eval(i['acc'][f](t), model_completion=True), strs)
+                                                 for f, ft, _ in T.STRUCTS[ty[1]]}}
+    if k == 'list':
+        n = model.eval(z3.Length(t), model_completion=True)
+        n = n.as_long() if z3.is_int_value(n) else 0
+        return [term_to_py(model, ty[1], model.eval(t[z3.IntVal(j)], model_completion=True), strs) for j in range(min(n, 64))]
+    if k == 'dict':
+        i = T.info(ty)
+        keys = model.eval(i['keys'](t), model_completion=True)
+        mp = model.eval(i['map'](t), model_completion=True)
+        n = model.eval(z3.Length(keys), model_completion=True)
+        n = n.as_long() if z3.is_int_value(n) else 0
+        items = []
+        for j in range(min(n, 32)):
+            kt = model.eval(keys[z3.IntVal(j)], model_completion=True)
+            vt = model.eval(z3.Select(mp, kt), model_completion=True)
+            items.append([term_to_py(model, ty[1], kt, strs), term_to_py(model, ty[2], vt, strs)])
+        return {'__dict__': items}
+    return {'__unrepresentable__': T.mangle(ty)}
+
+
+def seq_to_bytes(model, t):
+    import z3
+    n = model.eval(z3.Length(t), model_completion=True)
+    n = n.as_long() if z3.is_int_value(n) else 0
+    out = bytearray()
+    for j in range(min(n, 4096)):
+        b = model.eval(t[z3.IntVal(j)], model_completion=True)
+        out.append(b.as_long() if z3.is_bv_value(b) else 0)
+    return bytes(out)
